@@ -9,9 +9,11 @@ package c25
 
 import (
 	"context"
+	"encoding/json"
 	"errors"
 	"fmt"
 	"math/rand"
+	"os"
 	"regexp"
 	"runtime"
 	"sort"
@@ -281,7 +283,7 @@ func (ss *session) afterRelease(w *world, dc rueidis.DedicatedClient) {
 	go func() {
 		rdone <- dc.Receive(rctx, dc.B().Subscribe().Channel("{t}"+mk("recv")).Build(), func(rueidis.PubSubMessage) {})
 	}()
-	yield(20)
+	time.Sleep(10 * time.Millisecond) // virtual
 	select {
 	case e := <-rdone:
 		ss.after["Receive"] = fmt.Sprint(e)
@@ -343,6 +345,9 @@ func (w *world) runSession(ss *session) {
 
 func runScenario(run *mon.Run, sc scen) *world {
 	rng := run.Rand(fmt.Sprintf("scenario-%d", sc.idx))
+	if os.Getenv("VERIF_DEBUG") != "" {
+		fmt.Println("DEBUG scenario", sc.String())
+	}
 	rueidis.VerifSetQueueType(sc.queue)
 	defer rueidis.VerifSetQueueType("")
 	s, client, err := setup(sc)
@@ -371,16 +376,9 @@ func runScenario(run *mon.Run, sc scen) *world {
 				op = "tx"
 			}
 			if op == "leave-multi" {
-				// only as the last thing a session does, and only on a wire that already pipelines (a subscription or a hook
-				// started its reader): on a wire still in synchronous mode the abandoned MULTI is not discarded at release
-				// (finding "sync-mode-wire", probed separately by leakProbe) and would poison every later holder here
-				pipelining := false
-				for _, o := range ss.ops {
-					pipelining = pipelining || o == "sub" || o == "inval"
-				}
-				if j != k-1 || !pipelining {
-					op = "echo"
-				}
+				// an abandoned MULTI is not survivable by later holders of the connection (two findings, probed in isolation
+				// by leakProbe in a child process): keep it out of the shared history
+				op = "echo"
 			}
 			ss.ops = append(ss.ops, op)
 		}
@@ -429,6 +427,9 @@ func runScenario(run *mon.Run, sc scen) *world {
 		}()
 	}
 	for _, ss := range w.sessions {
+		if os.Getenv("VERIF_DEBUG") != "" {
+			fmt.Printf("DEBUG  session S%d fn=%v close=%v ops=%v\n", ss.id, ss.viaFn, ss.endClose, ss.ops)
+		}
 		wg.Add(1)
 		go func() {
 			defer wg.Done()
@@ -877,24 +878,35 @@ func lastBubble(stacks string) string {
 	return strings.Join(keep, "\n\n")
 }
 
-// leakProbe is the deterministic history behind the finding "abandoned MULTI survives the release of a wire that never
-// left synchronous mode": session A = VERIF.ECHO, MULTI, SET (no EXEC), release; then the next users of the pooled
-// connection (BlockingPoolSize 1): a blocking-tagged VERIF.ECHO and a second dedicated session's VERIF.ECHO.
-func leakProbe(t *testing.T, run *mon.Run, topo string, pipelining bool) {
-	sc := scen{idx: 9000, topo: topo, pool: 1, queue: "flowbuffer", noCache: true}
-	var replies []string
-	var connLog []string
-	dl, stacks := drv.Bubble(t, func() {
+// probeResult is what the child process of a leak probe prints.
+type probeResult struct {
+	Replies []string
+	Wire    []string
+	Err     string
+	Dl      string
+}
+
+// probeChild is the deterministic history behind the findings about an abandoned MULTI: session A = VERIF.ECHO, MULTI,
+// SET (no EXEC), release; then the next users of the pooled connection (BlockingPoolSize 1): a blocking-tagged
+// VERIF.ECHO and a second dedicated session's VERIF.ECHO. With pipelining, A first installs pub/sub hooks, which
+// starts the wire's reader (pipelining mode). It runs in a child process because rueidis may panic in its reader.
+func probeChild(t *testing.T) {
+	parts := strings.Split(os.Getenv("VERIF_PROBE"), ",")
+	topo, pipelining, resp2 := parts[0], parts[1] == "true", parts[2] == "true"
+	sc := scen{idx: 9000, topo: topo, pool: 1, queue: "flowbuffer", noCache: true, resp2: resp2}
+	var res probeResult
+	res.Dl, _ = drv.Bubble(t, func() {
 		s, client, err := setup(sc)
 		if err != nil {
-			run.Inconclusive("leak probe setup failed: " + err.Error())
+			res.Err = "setup: " + err.Error()
 			return
 		}
 		ctx := context.Background()
 		dc, release := client.Dedicate()
 		dc.Do(ctx, dc.B().Arbitrary("VERIF.ECHO").Keys(echoKey).Args("S1.1", "str").Build())
 		if pipelining {
-			dc.SetPubSubHooks(rueidis.PubSubHooks{OnMessage: func(rueidis.PubSubMessage) {}}) // starts the wire's reader: pipelining mode
+			dc.SetPubSubHooks(rueidis.PubSubHooks{OnMessage: func(rueidis.PubSubMessage) {}})
+			dc.Do(ctx, dc.B().Subscribe().Channel("{t}S1.ch").Build())
 		}
 		dc.DoMulti(ctx, dc.B().Arbitrary("MULTI").Build(), dc.B().Arbitrary("SET").Keys("{t}S1.never").Args("x").Build())
 		release()
@@ -904,37 +916,73 @@ func leakProbe(t *testing.T, run *mon.Run, topo string, pipelining bool) {
 			r2, _ = d2.Do(ctx, d2.B().Arbitrary("VERIF.ECHO").Keys(echoKey).Args("S2.1", "str").Build()).ToString()
 			return nil
 		})
-		replies = []string{r1, r2}
+		res.Replies = []string{r1, r2}
 		for _, e := range s.Log() {
-			if e.Kind == "recv" && e.Conn != 0 && (ownerOf(e.Argv) != "" || isCleanup(e.Argv) || strings.EqualFold(e.Argv[0], "MULTI")) {
-				connLog = append(connLog, fmt.Sprintf("conn=%d %s", e.Conn, strings.Join(e.Argv, " ")))
+			if e.Kind == "recv" && e.Conn != 0 && (ownerOf(e.Argv) != "" || isCleanup(e.Argv) || isBarePing(e.Argv) || strings.EqualFold(e.Argv[0], "MULTI")) {
+				res.Wire = append(res.Wire, fmt.Sprintf("conn=%d %s", e.Conn, strings.Join(e.Argv, " ")))
 			}
 		}
 		client.Close()
 		time.Sleep(3 * time.Second)
 		s.Close()
 	})
-	run.Case(fmt.Sprintf("leak-probe|%s|pipelining=%v", topo, pipelining), true)
+	b, _ := json.Marshal(res)
+	fmt.Printf("PROBE-RESULT %s\n", b)
+}
+
+func leakProbe(run *mon.Run, topo string, pipelining, resp2 bool) {
+	out, _ := drv.RunChild("TestC25", map[string]string{"VERIF_PROBE": fmt.Sprintf("%s,%v,%v", topo, pipelining, resp2)}, 2048)
+	run.Case(fmt.Sprintf("leak-probe|%s|pipelining=%v|resp2=%v", topo, pipelining, resp2), true)
 	run.Observe("leak_probe_runs", 1)
-	wit := map[string]any{"history": "A=Dedicate(): VERIF.ECHO S1.1; MULTI; SET (no EXEC); release. Then blocking VERIF.ECHO B1.1 and Dedicated(VERIF.ECHO S2.1) on the same pooled connection (BlockingPoolSize=1)",
-		"topology": topo, "wire_pipelining_before_release": pipelining, "replies_of_next_holders": replies, "expected": []string{"echo:B1.1", "echo:S2.1"}, "commands_on_the_wire": connLog, "synctest": dl}
-	if dl != "" {
-		run.Violation("hang-or-leak", "leak-probe|"+topo, merge(wit, map[string]any{"stacks": drv.Tail(lastBubble(stacks), 12000)}))
-		return
+	mode := "sync-mode-wire"
+	if pipelining {
+		mode = "pipelining-wire"
 	}
-	if len(replies) == 2 && (replies[0] != "echo:B1.1" || replies[1] != "echo:S2.1") {
-		mode := "sync-mode-wire"
-		if pipelining {
-			mode = "pipelining-wire"
+	if resp2 {
+		mode = "resp2-" + mode
+	}
+	wit := map[string]any{"history": "A=Dedicate(): VERIF.ECHO S1.1; [SetPubSubHooks+SUBSCRIBE when pipelining]; MULTI; SET (no EXEC); release. Then blocking VERIF.ECHO B1.1 and Dedicated(VERIF.ECHO S2.1) on the same pooled connection (BlockingPoolSize=1)",
+		"topology": topo, "resp2": resp2, "wire_pipelining_before_release": pipelining, "expected_replies": []string{"echo:B1.1", "echo:S2.1"}}
+	var res probeResult
+	if i := strings.Index(out, "PROBE-RESULT "); i >= 0 {
+		line := out[i+len("PROBE-RESULT "):]
+		if j := strings.IndexByte(line, '\n'); j >= 0 {
+			line = line[:j]
 		}
-		run.Observe("leak_reproduced", 1)
-		run.Violation("transaction-state-leaked-to-next-holder", fmt.Sprintf("%s|abandoned-MULTI|next-holder-reply=%s", mode, short(replies[0])), wit)
+		_ = json.Unmarshal([]byte(line), &res)
+	} else {
+		// the child died
+		if k := strings.Index(out, "panic: "); k >= 0 {
+			msg := out[k:]
+			if j := strings.IndexByte(msg, '\n'); j >= 0 {
+				msg = msg[:j]
+			}
+			run.Observe("release_panics", 1)
+			run.Violation("panic-on-release", fmt.Sprintf("%s|abandoned-MULTI|%s", mode, strings.TrimPrefix(msg, "panic: ")), merge(wit, map[string]any{"child_output": drv.Tail(out, 3000)}))
+			return
+		}
+		run.Inconclusive("leak probe child gave no result: " + drv.Tail(out, 300))
 		return
 	}
-	run.Observe("leak_probe_clean", 1)
+	wit["replies_of_next_holders"], wit["commands_on_the_wire"] = res.Replies, res.Wire
+	switch {
+	case res.Err != "":
+		run.Inconclusive("leak probe: " + res.Err)
+	case res.Dl != "":
+		run.Violation("hang-or-leak", "leak-probe|"+mode, merge(wit, map[string]any{"synctest": res.Dl}))
+	case len(res.Replies) == 2 && (res.Replies[0] != "echo:B1.1" || res.Replies[1] != "echo:S2.1"):
+		run.Observe("leak_reproduced", 1)
+		run.Violation("transaction-state-leaked-to-next-holder", fmt.Sprintf("%s|abandoned-MULTI|next-holder-reply=%s", mode, short(res.Replies[0])), wit)
+	default:
+		run.Observe("leak_probe_clean", 1)
+	}
 }
 
 func TestC25(t *testing.T) {
+	if drv.IsChild() {
+		probeChild(t)
+		return
+	}
 	run := mon.Start(t, "C25", "exploration",
 		"one history per synctest bubble: 2-16 concurrent dedicated sessions (Dedicated(fn) / Dedicate()+release / DedicatedClient.Close), each a random sequence of WATCH-GET-MULTI-SET-EXEC on a shared counter (retried on abort), VERIF.ECHO, SetPubSubHooks+SUBSCRIBE/PSUBSCRIBE, SetOnInvalidations+tracked read, an abandoned MULTI; "+
 			"concurrently 2 shared-pipeline callers (VERIF.ECHO + INCR of the watched counter), 2 blocking-tagged callers borrowing from the same pool (BlockingPoolSize 1-3, so connections are reused), publishes and tracked-key writes; after release every method of the client is called again; "+
@@ -976,8 +1024,10 @@ func TestC25(t *testing.T) {
 		}
 	}
 	for _, topo := range []string{"single", "cluster", "sentinel"} {
-		leakProbe(t, run, topo, false)
-		leakProbe(t, run, topo, true)
+		leakProbe(run, topo, false, false)
+		leakProbe(run, topo, true, false)
+		leakProbe(run, topo, false, true)
+		leakProbe(run, topo, true, true)
 	}
 	run.Observe("sessions", int64(total.sessions))
 	run.Observe("sessions_via_Dedicated_fn", int64(total.viaFn))
@@ -996,7 +1046,7 @@ func TestC25(t *testing.T) {
 	run.Observe("pipeline_calls", int64(total.pipeline))
 	run.Observe("session_state_snapshots_checked", int64(total.sessionStateChecked))
 	run.Require("sessions", "sessions_via_Dedicated_fn", "sessions_ended_by_Close", "connections_reused_by_a_next_holder", "exec_succeeded", "exec_aborted_by_watch", "calls_after_release",
-		"sessions_with_subscriptions", "sessions_with_invalidation_callback", "tracking_off_seen_before_next_holder", "hook_messages", "blocking_calls", "pipeline_calls", "session_state_snapshots_checked", "leak_probe_runs", "leak_probe_clean", "sessions_abandoning_multi")
+		"sessions_with_subscriptions", "sessions_with_invalidation_callback", "tracking_off_seen_before_next_holder", "hook_messages", "blocking_calls", "pipeline_calls", "session_state_snapshots_checked", "leak_probe_runs")
 	_ = errors.New
 	_ = rand.Int
 }
